@@ -51,7 +51,16 @@ KNOWN_OPTION_KEYS = ('length', 'encoding', 'indent', 'line_endings',
 
 def conv_value(v):
     """Option value as the reader must report it (str, or int if integer)."""
-    return int(v) if INT_RE.match(v) else v
+    if not INT_RE.match(v):
+        return v
+
+    try:
+        return int(v)
+    except ValueError:
+        # more digits than this interpreter converts (CPython's limit on
+        # integer string conversion, 4300 digits by default): no integer can
+        # be made of it here, the value stays the text it is
+        return v
 
 
 def parse_header_line(h):
